@@ -10,6 +10,7 @@ import YashModel.Quote.StateLemmas
 namespace YashModel.Quote
 open YashModel.Generated.QuoteTables
 open Listing
+open YashModel.Generated.ListingTables
 
 /-- ★ whole text, `trap`: for EVERY list of traps (conditions of `condOrder`, any actions — newlines, quotes,
     `#`, operators …) the TEXT that `trap` prints, read the way a fresh shell reads a script (tokens,
@@ -306,5 +307,63 @@ example : evalScript (listTypeset demoState) = some (expectedTypeset demoState) 
 example : (expectedTypeset demoState).length = 4 := by decide
 example : isName "a_1".toList = true := by decide
 example : strNeedsQuoting "a.b".toList = false := by decide
+
+/-! ## Wave 3: the printers and the format strings of the source -/
+
+local macro "fmt_steps" : tactic =>
+  `(tactic| repeat (first | rw [fmtFill_hole] | rw [fmtFill_nil] | rw [fmtFill_char _ _ _ (by decide)]))
+
+/-- ★ the model's printers ARE the format strings of the source (re-extracted on every run) filled with the
+    quoted pieces. -/
+theorem printers_follow_source_formats :
+    (∀ t : String × List Char, printTrap t = fmtFill trapFormat [quote t.2, t.1.toList] ++ ['\n'])
+    ∧ (∀ a : List Char × List Char, printAlias a = fmtFill aliasFormat [quote a.1, quote a.2] ++ ['\n'])
+    ∧ (∀ (v : Var) (s : List Char), v.value = .scalar s →
+        printSet v = fmtFill setFormat [v.name, quote s] ++ ['\n'])
+    ∧ (∀ (v : Var) (vs : List (List Char)), v.value = .array vs →
+        printSet v = fmtFill setFormat [v.name, quoteArray vs] ++ ['\n'])
+    ∧ (∀ (b : String) (opts : Var → List Char) (sig : Bool) (v : Var) (s : List Char),
+        v.name.contains '=' = false → v.value = .scalar s →
+        printVar b opts sig v
+          = fmtFill varScalarFormat [b.toList, opts v, sepOf v.name, quote v.name, quote s] ++ ['\n'])
+    ∧ (∀ (b : String) (opts : Var → List Char) (sig : Bool) (v : Var),
+        v.name.contains '=' = false → v.value = .none →
+        printVar b opts sig v = fmtFill varAttrFormat [b.toList, opts v, sepOf v.name, quote v.name] ++ ['\n'])
+    ∧ (∀ (b : String) (opts : Var → List Char) (sig : Bool) (v : Var) (vs : List (List Char)),
+        v.name.contains '=' = false → v.value = .array vs →
+        printVar b opts sig v
+          = fmtFill varArrayFormat [quote v.name, quoteArray vs] ++ ['\n']
+            ++ (if !(opts v).isEmpty || sig
+                then fmtFill varAttrFormat [b.toList, opts v, sepOf v.name, quote v.name] ++ ['\n'] else []))
+    ∧ (∀ v : Var, typesetOpts v
+        = (if v.readonly then fmtFill attrOptionFormat [['r']] else [])
+          ++ (if v.exported then fmtFill attrOptionFormat [['x']] else [])) := by
+  have f1 : trapFormat = ['t', 'r', 'a', 'p', ' ', '-', '-', ' ', '{', '}', ' ', '{', '}'] := by decide
+  have f2 : aliasFormat = ['{', '}', '=', '{', '}'] := by decide
+  have f3 : setFormat = ['{', '}', '=', '{', '}'] := by decide
+  have f4 : varScalarFormat = ['{', '}', ' ', '{', '}', '{', '}', '{', '}', '=', '{', '}'] := by decide
+  have f5 : varArrayFormat = ['{', '}', '=', '{', '}'] := by decide
+  have f6 : varAttrFormat = ['{', '}', ' ', '{', '}', '{', '}', '{', '}'] := by decide
+  have f7 : attrOptionFormat = ['-', '{', '}', ' '] := by decide
+  have hp : "trap -- ".toList = ['t', 'r', 'a', 'p', ' ', '-', '-', ' '] := by decide
+  refine ⟨?_, ?_, ?_, ?_, ?_, ?_, ?_, ?_⟩
+  · intro t; rw [f1]; fmt_steps; unfold printTrap; rw [hp]; simp
+  · intro a; rw [f2]; fmt_steps; simp [printAlias]
+  · intro v s h; rw [f3]; fmt_steps; simp [printSet, h]
+  · intro v vs h; rw [f3]; fmt_steps; simp [printSet, h]
+  · intro b opts sig v s hn h
+    have hm : '=' ∉ v.name := by simpa [List.contains_iff_mem] using hn
+    rw [f4]; fmt_steps; simp [printVar, hm, h]
+  · intro b opts sig v hn h
+    have hm : '=' ∉ v.name := by simpa [List.contains_iff_mem] using hn
+    rw [f6]; fmt_steps; simp [printVar, hm, h]
+  · intro b opts sig v vs hn h
+    have hm : '=' ∉ v.name := by simpa [List.contains_iff_mem] using hn
+    rw [f5, f6]; fmt_steps; simp [printVar, hm, h]
+  · intro v
+    rw [f7]
+    fmt_steps
+    rcases v with ⟨n, val, x, r⟩
+    cases x <;> cases r <;> simp [typesetOpts] <;> decide
 
 end YashModel.Quote
